@@ -124,12 +124,76 @@ def _rebase_id(i, off, h, host):
     return off + i
 
 
+def subst_types(e, tymap):
+    """rename type parameters inside the type slots of an expression (call type arguments, associated-constant owners, cast targets)"""
+    pat = re.compile(r"\b(%s)\b" % "|".join(re.escape(k) for k in sorted(tymap, key=len, reverse=True)))
+
+    def ty(t):
+        return pat.sub(lambda m: tymap[m.group(1)], t) if isinstance(t, str) else t
+
+    def go(x):
+        if not isinstance(x, tuple) or not x:
+            return x
+        if x[0] == "call" and len(x) >= 5:
+            return ("call", x[1], x[2], tuple(go(a) for a in x[3]), tuple(ty(t) for t in x[4])) + tuple(x[5:])
+        if x[0] == "assoc" and len(x) > 3:
+            return ("assoc", x[1], x[2], tuple(ty(t) for t in x[3]))
+        if x[0] == "cast" and len(x) == 3:
+            return ("cast", go(x[1]), ty(x[2]))
+        return tuple(go(y) if isinstance(y, tuple) else y for y in x)
+
+    return go(e)
+
+
 def subst_expr(e, mapping):
     if not isinstance(e, tuple):
         return e
     if e in mapping:
         return mapping[e]
     return tuple(subst_expr(y, mapping) if isinstance(y, tuple) else y for y in e)
+
+
+def canonical_field_names(facts):
+    """The rules speak of the two fields of Bvf / Bvd as `data` (the storage words) and `length` (the bit length). The
+    fields are identified by their types (the array / boxed slice of words, the usize) and renamed to those canonical
+    names in the facts, so that renaming a private field is not mistaken for a lost anchor. -> {adt: {actual: canonical}}"""
+    ren = {}
+    for a in facts.get("adts", []):
+        if a["path"].split("::")[-1] not in ("Bvf", "Bvd") or a.get("kind") != "Struct" or len(a["variants"]) != 1:
+            continue
+        fs = a["variants"][0]["fields"]
+        words = [f for f in fs if re.match(r"^(\[.*;.*\]|std::boxed::Box<\[.*\].*>|std::vec::Vec<.*>)$", f["ty"])]
+        lens = [f for f in fs if f["ty"] == "usize"]
+        if len(fs) == 2 and len(words) == 1 and len(lens) == 1:
+            m = {}
+            if words[0]["name"] != "data":
+                m[words[0]["name"]] = "data"
+            if lens[0]["name"] != "length":
+                m[lens[0]["name"]] = "length"
+            if m:
+                ren[a["path"]] = m
+                for f in fs:
+                    f["name"] = m.get(f["name"], f["name"])
+    if not ren:
+        return ren
+
+    def fix(x):
+        if isinstance(x, dict):
+            adt = x.get("adt")
+            if isinstance(adt, str) and adt in ren:
+                if "fname" in x:
+                    x["fname"] = ren[adt].get(x["fname"], x["fname"])
+                if "fnames" in x:
+                    x["fnames"] = [ren[adt].get(n, n) for n in x["fnames"]]
+            for v in x.values():
+                fix(v)
+        elif isinstance(x, list):
+            for v in x:
+                fix(v)
+
+    for b in facts["bodies"]:
+        fix(b.get("blocks"))
+    return ren
 
 
 class Crate:
@@ -155,6 +219,7 @@ class Crate:
         self.macros = facts["macros"]
         self.debug_assertions = facts["debug_assertions"]
         self.overflow_checks = facts["overflow_checks"]
+        self.field_renames = canonical_field_names(facts)
         self.bodies = [Body(self, b) for b in facts["bodies"]]
         self.by_path = defaultdict(list)
         for b in self.bodies:
@@ -415,6 +480,20 @@ class Body:
     def reachable_blocks(self):
         self.succ
         return self.reachable
+
+    def reachable_from(self, a):
+        """blocks reachable from block a (a itself included)"""
+        cache = self.__dict__.setdefault("_reach_from", {})
+        if a not in cache:
+            seen, todo = {a}, [a]
+            while todo:
+                x = todo.pop()
+                for y in self.succ[x]:
+                    if y not in seen:
+                        seen.add(y)
+                        todo.append(y)
+            cache[a] = seen
+        return cache[a]
 
     def is_unreachable_block(self, b):
         return self.term(b)["t"] == "unreachable"
@@ -732,7 +811,12 @@ class Body:
                 r = h.return_expr()
                 unit = r == ("tuple", ()) or (r[0] == "unknown") or (r[0] == "var" and r[1].startswith("_"))
                 if not unit and not contains(r, lambda x: isinstance(x, tuple) and x[:1] == ("var",) and len(x) > 2):
-                    return subst_expr(r, {("param", h.local_name(i + 1)): args[i] for i in range(h.arg_count)})
+                    r = subst_expr(r, {("param", h.local_name(i + 1)): args[i] for i in range(h.arg_count)})
+                    # the helper's own type parameters (`fn word<J>`) become the types it is called with
+                    gens = [g.split(":")[0] for g in h.raw.get("generics", [])]
+                    if gens and len(gens) == len(targs) and any(g != t2 for g, t2 in zip(gens, targs)):
+                        r = subst_types(r, dict(zip(gens, targs)))
+                    return r
             return ("call", name, qual, args, targs)
         return ("call", "<indirect>", str(self.e_operand(f, depth + 1, visiting)), args, ())
 
@@ -930,6 +1014,17 @@ class Body:
                 return None
             n = x[0] if x[0] == y[0] else ("call", "min", None, (x[0], y[0]), ())
             return n, ("tuple", x[1], y[1]), False
+        if nm == "skip" and len(args) == 2:
+            inner = self._shape_of(args[0], depth + 1)
+            if inner is None or inner[2] or inner[1][0] not in ("idx", "elem"):
+                return None
+            n, comp, _ = inner
+            k = args[1]
+            # the walk starts k items later (an over-long skip leaves nothing: the count saturates at zero)
+            n2 = ("call", "saturating_sub", None, (n, k), ())
+            if comp[0] == "idx":
+                return n2, ("idx", k if comp[1] == ("int", 0) else ("bin", "Add", comp[1], k)), False
+            return n2, ("elem", comp[1], k if comp[2] == ("int", 0) else ("bin", "Add", comp[2], k)), False
         if nm == "take" and len(args) == 2:
             inner = self._shape_of(args[0], depth + 1)
             if inner is None or inner[2]:
@@ -955,7 +1050,10 @@ class Body:
                 res = dict(lo=a, hi=(n if a == ("int", 0) else None), rev=rev, plain_range=True, comp=comp)
             elif comp[0] == "elem":
                 base, a = comp[1], comp[2]
-                hi = n if a == ("int", 0) else ("bin", "Add", a, n) if not (is_bin(n, "Sub") and n[3] == a) else n[2]
+                if is_call(n, "saturating_sub") and len(n[3]) == 2 and n[3][1] == a:
+                    hi = n[3][0]          # a..h walks nothing when a >= h, exactly like skip(a) over h items
+                else:
+                    hi = n if a == ("int", 0) else ("bin", "Add", a, n) if not (is_bin(n, "Sub") and n[3] == a) else n[2]
                 res = dict(lo=a, hi=hi, rev=rev, plain_range=False, comp=("elem", base, ("int", 0)))
             else:
                 res = dict(lo=("int", 0), hi=n, rev=False, plain_range=False, comp=comp)
